@@ -369,18 +369,30 @@ func execUpload(vec J, out *Writer) {
 	}
 	var h handle
 	var filename *string
+	parsePath := ctlPath
+	if fk == "relpath" {
+		// not a fault: the control file is named by a RELATIVE path and the process changes its working directory
+		// before the operation (a daemon that chdirs to "/"): the handle stands for the file that was parsed
+		cwd, _ := os.Getwd()
+		defer os.Chdir(cwd)
+		os.Chdir(root)
+		parsePath = filepath.Join("src", ctlName)
+	}
 	if kind == "dsc" {
-		d, err := control.ParseDscFile(ctlPath)
+		d, err := control.ParseDscFile(parsePath)
 		if err != nil {
 			die("ParseDscFile: %v\n%s", err, text.String())
 		}
 		h, filename = d, &d.Filename
 	} else {
-		c, err := control.ParseChangesFile(ctlPath)
+		c, err := control.ParseChangesFile(parsePath)
 		if err != nil {
 			die("ParseChangesFile: %v\n%s", err, text.String())
 		}
 		h, filename = c, &c.Filename
+	}
+	if fk == "relpath" {
+		os.Chdir(outside)
 	}
 	// faults on the control file itself
 	if at == len(listed)+1 {
